@@ -365,8 +365,7 @@ VARIANTS = [
      "old": _FILL, "new": "      self.match_cases[c.start] = start\n"},
     {"name": "match-cases-range-skips-first-line", "rule": "R15.31", "file": PM, "expect": "fire",
      "old": _FILL,
-     "new": ("      self.match_cases[c.start] = start\n"
-             "      for i in range(c.start + 1, c.end):\n"
+     "new": ("      for i in range(c.start + 1, c.end + 1):\n"
              "        self.match_cases[i] = start\n")},
     {"name": "match-cases-endpoints-via-locals", "rule": "R15.31", "file": PM, "expect": "fire",
      "old": _FILL,
